@@ -251,7 +251,7 @@ def run_lines(exe, sub, lines, shards=NPROC, timeout=3000, env=None):
     def work(i):
         # a shard that does not come back (a case on which the implementation never returns: creeping float propagation,
         # a stalled bisection) is killed and re-run line by line below, each line under its own time limit -> "HANG"
-        lim = min(timeout, max(300.0, 0.05 * len(chunks[i])))
+        lim = min(timeout, max(600.0, 0.2 * len(chunks[i])))
         try:
             o, err = procs[i].communicate("\n".join(chunks[i]) + "\n", timeout=lim)
             outs[i] = (o.splitlines(), err, procs[i].returncode)
